@@ -51,8 +51,8 @@ InnerHeader == [params |-> <<[name |-> "s", kind |-> "POSITIONAL_OR_KEYWORD", an
 (***************************************************************************)
 (* Impl                                                                    *)
 (***************************************************************************)
-\* functions.py:425-432 / arg_spec.py:432: only a coroutine function's return type is wrapped; an async def that
-\* yields is an async generator function (inspect.iscoroutinefunction is False, functions.py is_generator)
+\* functions.py:425-432 (IsGeneratorVisitor) / arg_spec.py:435 + :840 (is_async = asyncio.iscoroutinefunction): only a
+\* coroutine function's return type is wrapped; an async def that yields is an async generator function
 ShapeRet(h, s, ret0) == IF h.isasync /\ s # "generator" THEN ImplCoro(ret0) ELSE ret0
 ShapeRetRt(h, s, ret0) == IF h.isasync /\ (s # "generator" \/ BugAsyncGenWrapped) THEN ImplCoro(ret0) ELSE ret0
 
@@ -64,9 +64,9 @@ ImplShapeSigDef(h, s) ==
 ImplShapeSigRt(h, s) ==
     LET plain == ImplSigRt([h EXCEPT !.isasync = FALSE]) IN SigV(SigParams(plain), ShapeRetRt(h, s, SigRet(plain)))
 
-\* --- methods.  arg_spec.py _uncached_get_argspec: a function found in a class gets `self: <the class>`
-\* (:527 _get_type_for_parameter, is the first parameter of a method); signature.py BoundMethodSignature.get_signature
-\* drops the first parameter; classmethod objects are bound methods of the class.
+\* --- methods.  arg_spec.py:536-565 _get_type_for_parameter: the unannotated first parameter of a function found in
+\* a class of its module (via __qualname__) is typed with that class; signature.py:2603 BoundMethodSignature /
+\* :2625 get_signature drops the first parameter of a bound method; classmethod objects are bound methods of the class.
 ImplFirstParam(h, s) ==
     ParamV(FirstName(s), FirstKind(h), NoDefault, IF s = "classmethod" THEN V("Subclass", "", <<TypedV("C")>>) ELSE TypedV("C"))
 ImplSigClassAccess(h, s) ==
@@ -76,12 +76,14 @@ ImplSigInstanceAccess(h, s) ==
     LET sig == ImplShapeSigRt(h, s)
     IN IF BugBoundKeepsFirst /\ HasFirst(s) THEN SigV(<<ImplFirstParam(h, s)>> \o SigParams(sig), SigRet(sig)) ELSE sig
 \* the def-derived view inside the body: name_check_visitor.py:2305 sets each parameter to the value
-\* compute_parameters gave it (functions.py:262-340); the first parameter of a method is the class (:283-296)
+\* compute_parameters gave it (functions.py:262-340); the first parameter of a method is the enclosing class,
+\* of a classmethod its SubclassValue (functions.py:282-289 is_self)
 ImplBody(h, s) ==
     (IF HasFirst(s) THEN <<ImplFirstParam(h, s).a[3]>> ELSE << >>)
     \o [j \in 1..Len(h.params) |-> Unite(<<ImplDefParam(h.params[j]).a[3]>>)]
 
-\* --- wraps: the runtime object is the wrapper; arg_spec gives ( *args, **kwargs ) whose annotations stay Any
+\* --- wraps: the runtime object is the wrapper: arg_spec.py:1004 inspect.signature(obj, follow_wrapped=False), and
+\* :422 is_wrapped drops the copied return annotation; ( *args, **kwargs ) whose annotations stay Any
 AnyArgsSig(src, ret) ==
     SigV(<<ParamV("args", "VAR_POSITIONAL", NoDefault, src), ParamV("kwargs", "VAR_KEYWORD", NoDefault, src)>>, ret)
 ImplSigRtWraps == AnyArgsSig(AnyV("inference"), AnyV("unannotated"))
